@@ -242,7 +242,7 @@ fn observe(sim: &des::net::SimBuilder<()>) -> Expect {
 
 // ---- document generator (feature bits) -------------------------------------------------
 
-const NBITS: u32 = 13;
+const NBITS: u32 = 15;
 
 fn gen(bits: u32) -> Vec<Ty> {
     let f = |k: u32| bits & (1 << k) != 0;
@@ -290,6 +290,22 @@ fn gen(bits: u32) -> Vec<Ty> {
         main.subs.push(Sub { name: "e2", size: Some(1), ty: "Leaf".into(), ty_txt: "Leaf".into() });
         main.conns.push(Conn { a: acc("e/g"), b: acc("e2/g"), link: f(10) });
     }
+    if f(13) {
+        // a parent type with gates, a submodule and a connection; the child inherits everything and
+        // (bit 14) adds a submodule and a connection of its own or nothing at all
+        let mut base = Ty { name: "Base".into(), header: "Base".into(), ..Default::default() };
+        base.gates.push(("p", Some(2)));
+        base.subs.push(Sub { name: "k", size: None, ty: "Leaf".into(), ty_txt: "Leaf".into() });
+        base.conns.push(Conn { a: acc("k/g"), b: acc("p[0]"), link: f(10) });
+        types.push(base);
+        let mut top = Ty { name: "Top".into(), header: "Top".into(), inherit: Some("Base".into()), ..Default::default() };
+        if f(14) {
+            top.subs.push(Sub { name: "z", size: None, ty: "Leaf".into(), ty_txt: "Leaf".into() });
+            top.conns.push(Conn { a: acc("z/g"), b: acc("p[1]"), link: false });
+        }
+        types.push(top);
+        main.subs.push(Sub { name: "t", size: None, ty: "Top".into(), ty_txt: "Top".into() });
+    }
     if f(8) {
         main.conns.push(Conn { a: acc("a/g"), b: acc("m/up"), link: false });
     }
@@ -311,6 +327,8 @@ macro_rules! registry {
             .symbol_fn("Leaf", |_| Sym("Leaf".into()))
             .symbol_fn("Leaf2", |_| Sym("Leaf2".into()))
             .symbol_fn("Other", |_| Sym("Other".into()))
+            .symbol_fn("Base", |_| Sym("Base".into()))
+            .symbol_fn("Top", |_| Sym("Top".into()))
     };
 }
 
@@ -513,12 +531,12 @@ impl Property for C18 {
     }
     fn rule(&self, tier: Tier) -> String {
         format!(
-            "conformance: all 2^{NBITS} = 8192 documents of the feature-bit grammar (cluster gates, generic Mid with type argument, inherited argument type, several fields typed with the same parameter, submodule clusters incl. size one, nested/cluster/indexed connections with and without link, inherited cluster element type, cluster-to-cluster and indexed connections at the top level) built with nodes_from_ndl and compared with a reference elaborator (modules with registered software, gate clusters, connections incl. link metrics and queue size); \
+            "conformance: all 2^{NBITS} = 32768 documents of the feature-bit grammar (cluster gates, generic Mid with type argument, inherited argument type, several fields typed with the same parameter, submodule clusters incl. size one, a type inheriting gates / submodules / connections with and without own additions, nested/cluster/indexed connections with and without link, inherited cluster element type, cluster-to-cluster and indexed connections at the top level) built with nodes_from_ndl and compared with a reference elaborator (modules with registered software, gate clusters, connections incl. link metrics and queue size); \
              semantic mutations: {} single-point mutations (one per error cause of the statement) applied to {} generated documents, each must yield an error; \
              textual mutations: every scalar of {} base documents replaced by each of {} garbled/dangling tokens, outcome must be a network or an error, never a panic; \
              non-trivial = document that has at least one connection (conformance) or every mutated document (totality)",
             SEM.len(),
-            "all 8192",
+            tier.pick("the 8192 documents without the inheritance bits of the", "all 32768"),
             tier.pick("4 hand-written + 64 generated".to_string(), "4 hand-written + all 8192 generated".to_string()),
             MUTS.len()
         )
@@ -562,7 +580,8 @@ impl Property for C18 {
         }
         // (b1) semantic mutations
         let step = 1;
-        for bits in (0u32..(1 << NBITS)).step_by(step) {
+        let sem_limit: u32 = ctx.tier.pick(1 << 13, 1 << NBITS);
+        for bits in (0u32..sem_limit).step_by(step) {
             // vary the sampled documents so that every feature bit is on in some of them
             let bits = if step > 1 { bits ^ ((bits >> 4) & 0xf) } else { bits };
             for which in SEM {
@@ -595,8 +614,9 @@ impl Property for C18 {
         // (b2) textual mutations of every scalar
         let mut bases: Vec<String> = BASES.iter().map(|s| (*s).to_string()).collect();
         let ngen = ctx.tier.pick(64, 8192);
+        let span = 1usize << NBITS;
         for k in 0..ngen {
-            let bits = (k * (8192 / ngen) + if ngen < 8192 { (k % 7) * 37 } else { 0 }) as u32 & ((1 << NBITS) - 1);
+            let bits = (k * (span / ngen) + if ngen < 8192 { (k % 7) * 37 } else { 0 }) as u32 & ((1 << NBITS) - 1);
             bases.push(yaml(&gen(bits), "Main"));
         }
         for (bi, base) in bases.iter().enumerate() {
